@@ -362,13 +362,22 @@ func (n *node) RegisterName(name gen.Atom, pid gen.PID) error {
 		return gen.ErrTaken
 	}
 
+	// the name must be known to the process before the entry is visible:
+	// unregisterProcess reads the flag, then p.name
+	p.name = name
 	if _, exist := n.names.LoadOrStore(name, p); exist {
+		p.name = ""
 		p.registered.Store(false)
 		return gen.ErrTaken
 	}
 
 	lib.VerifPoint("node.regname.stored", pid)
-	p.name = name
+	if p.isAlive() == false {
+		// the process terminated after the check above and its unregisterProcess may
+		// have run before the flag or the entry existed: release the entry here
+		n.names.CompareAndDelete(name, p)
+		return gen.ErrProcessTerminated
+	}
 
 	return nil
 }
